@@ -16,6 +16,7 @@ package presence
 
 import (
 	"context"
+	encoding "encoding/binary"
 	"time"
 
 	"github.com/emitter-io/emitter/internal/message"
@@ -133,8 +134,8 @@ func (s *Service) getClusterPresence(ssid message.Ssid) []Info {
 			// Wait for all presence updates to come back (or a deadline)
 			for _, resp := range awaiter.Gather(1000 * time.Millisecond) {
 				info := []Info{}
-				if !message.FitsCount(resp, 2) {
-					continue // declares more entries than it can hold
+				if !validPresence(resp) {
+					continue // declares more entries or longer names than it can hold
 				}
 
 				if err := binary.Unmarshal(resp, &info); err == nil {
@@ -145,6 +146,18 @@ func (s *Service) getClusterPresence(ssid message.Ssid) []Info {
 		}
 	}
 	return who
+}
+
+// validPresence checks that the number of entries and the lengths of the two names of
+// each entry, as declared in an encoded presence response, fit the bytes that follow.
+func validPresence(b []byte) bool {
+	if !message.FitsCount(b, 2) {
+		return false
+	}
+
+	n, k := encoding.Uvarint(b)
+	_, ok := message.FitsFields(b[k:], 2*n)
+	return ok
 }
 
 func (s *Service) getLocalPresence(ssid message.Ssid) []Info {
